@@ -9,6 +9,9 @@ import (
 // Gen: n modelled data sets (each one correspondence case holding 10-25 SELECT runs, executed in
 // three engine states) and n/2 general data sets (twin queries only, no model).
 func Gen(r *vk.Run, n int) error {
+	if err := genDirected(r); err != nil {
+		return err
+	}
 	for ds := 0; ds < n; ds++ {
 		if err := genModelled(r, ds); err != nil {
 			return fmt.Errorf("modelled data set %d: %w", ds, err)
